@@ -172,6 +172,36 @@ def fromlist_rules(model, R):
                             f'sorted(..., key={keyname})', f'key={src(key)}')
 
 
+def setstate_passes_state(model, R):
+    """The ordered (trusting) path of _fromlist is only sound for lists produced by _tolist: __setstate__ must hand over the
+    unpickled component itself, and __getstate__ must be _tolist's output."""
+    ls = model.func('lattices.Data.__setstate__')
+    lg = model.func('lattices.Data.__getstate__')
+    calls = [n for n in walk(ls.body) if isinstance(n, ast.Call) and (chain(n.func) or [''])[-1] == '_fromlist']
+    if len(calls) != 1 or len(calls[0].args) < 2:
+        R.unknown('ORDER', ls, ls.node, '__setstate__ rebuilds through _fromlist', f'{len(calls)} _fromlist calls')
+        return
+    c = calls[0]
+    raw = c.args[2] if len(c.args) > 2 else next((k.value for k in c.keywords if k.arg == 'unordered'), None)
+    if raw is not None and const(raw, 'x') is True:
+        R.ok('ORDER', ls, c, '__setstate__ re-sorts the stored lists (unordered=True)')
+        return
+    arg = c.args[1]
+    unp = [s_ for s_ in ls.body if isinstance(s_, ast.Assign) and name_is(s_.value, ls.params[1]) and isinstance(s_.targets[0], ast.Tuple)]
+    names = [t.id for t in unp[0].targets[0].elts if isinstance(t, ast.Name)] if unp else []
+    rebound = [s_ for s_ in stmts(ls.body) if isinstance(s_, (ast.Assign, ast.AugAssign)) and s_ not in unp
+               and isinstance(arg, ast.Name) and arg.id in [n.id for t in (s_.targets if isinstance(s_, ast.Assign) else [s_.target]) for n in ast.walk(t) if isinstance(n, ast.Name)]]
+    if isinstance(arg, ast.Name) and arg.id in names and not rebound:
+        r = [n.value for n in walk(lg.body) if isinstance(n, ast.Return)]
+        pos = names.index(arg.id)
+        comp = r[0].elts[pos] if len(r) == 1 and isinstance(r[0], ast.Tuple) and len(r[0].elts) > pos else None
+        R.same(comp is not None and src(comp) == 'self._tolist()', 'ORDER', lg, lg.node,
+               'the pickled list is _tolist() itself (canonical order of members and of both neighbour lists)', 'self._tolist()', src(comp))
+    else:
+        R.unknown('ORDER', ls, c, '__setstate__ hands the unpickled list unchanged to the order-trusting path of _fromlist',
+                  f'{src(arg)} is rebuilt before the call' if rebound else src(arg))
+
+
 def who_may_write(model, R):
     allowed = {
         'index': {'lattices.Data.__init__', 'lattices.Data._fromlist'},
@@ -205,4 +235,5 @@ def run(model, R):
     R.guard('WHO-MAY-WRITE', None, 'package', who_may_write, model, R)
     from .common import flag_clobber
     flag_clobber(R, model.func('lattices.Data._fromlist'), ['unordered'])
+    R.guard('ORDER', None, '__setstate__', setstate_passes_state, model, R)
     return __doc__.strip()
